@@ -254,7 +254,15 @@ impl Tracer {
                     return Err(Ptrace(e));
                 }
 
-                let mut wait = tracee.wait_one()?;
+                let mut wait = match tracee.wait_one() {
+                    Ok(wait) => wait,
+                    Err(Waitpid(Errno::ECHILD)) => {
+                        // the thread exited and was reaped meanwhile: nothing left to stop
+                        self.tracee_ctl.remove(tracee.pid);
+                        continue;
+                    }
+                    Err(e) => return Err(e),
+                };
 
                 while !matches!(wait, WaitStatus::PtraceEvent(_, _, libc::PTRACE_EVENT_STOP)) {
                     let stop = self.apply_new_status(tcx, wait)?;
@@ -292,7 +300,14 @@ impl Tracer {
                         break;
                     }
 
-                    wait = tracee.wait_one()?;
+                    wait = match tracee.wait_one() {
+                        Ok(wait) => wait,
+                        Err(Waitpid(Errno::ECHILD)) => {
+                            self.tracee_ctl.remove(tracee.pid);
+                            break;
+                        }
+                        Err(e) => return Err(e),
+                    };
                 }
 
                 if let Some(t) = self.tracee_ctl.tracee_mut(tracee.pid)
@@ -355,7 +370,11 @@ impl Tracer {
                         // PTRACE_EVENT_STOP may be received first, and new tracee may be already registered at this point
                         if self.tracee_ctl.tracee_mut(new_thread_id).is_none() {
                             let new_tracee = self.tracee_ctl.add(new_thread_id);
-                            let new_trace_status = new_tracee.wait_one()?;
+                            let new_trace_status = match new_tracee.wait_one() {
+                                // the new thread has already completed and was reaped
+                                Err(Waitpid(Errno::ECHILD)) => WaitStatus::Exited(new_thread_id, 0),
+                                status => status?,
+                            };
                             if matches!(new_trace_status, WaitStatus::Exited(_, _)) {
                                 // this situation can occur if the process has already completed
                                 self.tracee_ctl.remove(new_thread_id);
